@@ -751,7 +751,7 @@ func (m *Memory) checkGc() {
 		defer m.gcMx.Unlock()
 
 		machId := m.Mach.Id()
-		upper := m.nextId.Load() - uint64(m.Cfg.MaxRecords)
+		upper := m.nextId.Load() - uint64(m.Cfg.MaxRecords) - 1
 		deleted := 0
 
 		// delete in batches to stay within transaction size limits
